@@ -21,6 +21,9 @@ func main() {
 		fmt.Println(strings.Join(core.IDs(), " "))
 		return
 	}
+	if id == "selftest" {
+		os.Exit(core.RunSelfTests())
+	}
 	tier := os.Getenv("VERIF_TIER")
 	replay := ""
 	for i := 2; i < len(os.Args); i++ {
